@@ -13,7 +13,9 @@ TRUSTED_BASE = [
 ]
 
 SCHED_NOTE = ("schedules: proved for every interleaving of whole critical sections (the model's steps); real threads, "
-              "memory ordering and the lock itself are assumed (DESIGN 2), so the property is decided partially in that dimension")
+              "memory ordering and the lock itself are assumed (DESIGN 2), so the property is decided partially in that dimension. "
+              "Supporting checks in that dimension: per-function audit of lock sections / atomics / orderings, and sampled runs with 2-4 "
+              "real threads whose stamped results must be linearizable with respect to the extracted model (tools/threads.py)")
 
 # ---------------------------------------------------------------------------------------------
 # correspondence runs: (primitive, configuration) -> how deep
@@ -173,7 +175,7 @@ PROPS = {
         runs=[n for n in RB_RUNS if not n.startswith("rb-2-") and n.endswith("-0")],
         exclude_flavours=["growing", "shared-growing"], direct_keys=["a"],
         explanation="Thin theorem (every model step reports zero allocations; the pointer-level containers never change the domain of the cell store) + the deciding observable: a counting #[global_allocator] in the harness, armed only inside library calls (id-wakers, tagged payloads and the harness bookkeeping allocate nothing while armed), whose per-step allocation+free count is compared with the model's zero on every step of every history explored for the other properties, for local, parking_lot and shared flavours. GrowingHeapBuf runs are excluded from the 'a' comparison (documented exception); creation/teardown of primitives and panicking calls are outside the claim.",
-        level_text="Allocation observable in the model/implementation correspondence, backed by a thin Coq theorem; see explanation.",
+        level_text="Allocation observable in the model/implementation correspondence (all seven primitives, all non-growing flavours, plus the array / fixed-heap ring buffers themselves for capacities 0..4), backed by a thin Coq theorem; see explanation.",
         level_note="A proof cannot see an allocation the model does not mention; detection rests on the allocator observable.",
         technique="Coq theorem (thin) + counting global allocator compared on every step of the correspondence runs",
     ),
@@ -181,7 +183,7 @@ PROPS = {
         level="proof", extra=["atomic_audit", "threads"], coq_files=["Properties/C02.v"],
         theorems={"Properties/C02.v": ["C02_guards_le_1", "C02_grant_only_when_free", "C02_guard_count", "C02_is_locked_exact", "C02_monitor"]},
         runs=MUTEX_RUNS, keys=["r", "p"], assumptions=[SCHED_NOTE], monitor=dict(id=2, runs=["mutex-k3-unfair", "mutex-k3-fair"]),
-        level_text="Theorems over every reachable state of the mutex model (any number of lock futures, both fairness modes): guards <= 1, locked iff one guard, a poll/try_lock completes only from a guard-free state and creates exactly one, is_locked() exact. Model tied to the crate by exhaustive model-guided exploration (k=3 fixpoint, local and parking_lot flavours) comparing results, is_locked() and the number of guard objects the harness holds.",
+        level_text="Theorems over every reachable state of the mutex model (any number of lock futures, both fairness modes): guards <= 1, locked iff one guard, a poll/try_lock completes only from a guard-free state and creates exactly one, is_locked() exact. Model tied to the crate by exhaustive model-guided exploration (k=3 fixpoint, local and parking_lot flavours) comparing results, is_locked() and the number of guard objects the harness holds. The boolean monitors evaluated on the crate's traces have their own theorems (C02_monitor; likewise C03_monitor, C04_monitor).",
         level_note="Exclusive access to T follows from guards<=1 only under the atomicity assumptions (lock_api mutual exclusion; all state inside the lock). " + SCHED_NOTE,
     ),
     "C03": dict(
@@ -203,7 +205,7 @@ PROPS = {
         theorems={"Properties/C05.v": ["C05_ledger", "C05_grant_exact", "C05_releaser_once", "C05_disarm"]},
         runs=SEM_RUNS, keys=["r", "p"], assumptions=[SCHED_NOTE, "permits + release amounts stay below usize::MAX (source has a TODO: overflow check)"],
         monitor=dict(id=5, runs=["sem-k2-unfair", "sem-k2-fair", "sem-max-unfair", "sem-max-fair"]),
-        level_text="Theorem over all histories (fair/unfair, any requests, with or without the wake-up repairs): the ledger monitor over the observable trace holds - permits() = initial + released - taken + returned after every call, grants only when enough permits and of exactly n, releaser returns its amount once, zero after disarm. Correspondence: results (incl. observed permit deltas) and permits() on every transition, borrowed, parking_lot and shared flavours.",
+        level_text="Theorem over all histories (fair/unfair, any requests, with or without the wake-up repairs): the ledger monitor over the observable trace holds - permits() = initial + released - taken + returned after every call, grants only when enough permits and of exactly n, releaser returns its amount once, zero after disarm. Correspondence: results (incl. observed permit deltas) and permits() on every transition, borrowed, parking_lot and shared flavours, including runs at the usize::MAX boundary of the counter (initial permits usize::MAX-3, requests up to usize::MAX).",
         level_note="Overflow of the permit counter is excluded by the contract predicate. " + SCHED_NOTE,
     ),
     "C06": dict(
@@ -211,7 +213,7 @@ PROPS = {
         theorems={"Properties/C06.v": ["C06_head_not_stranded", "C06_progress", "C06_refuted_pinned"]},
         runs=SEM_RUNS, keys=["r", "w", "p"], assumptions=[SCHED_NOTE, "wakers private to each future (so that wake events are attributable from the trace)"],
         monitor=dict(id=6, runs=["sem-k2-unfair", "sem-k2-fair", "sem-max-unfair", "sem-max-fair"]),
-        level_text="Theorem over all histories of the repaired code, both fairness modes: at every quiescent point, if requests are pending and none holds an unconsumed wake-up then the longest-waiting one (ordering rule of the property, recomputed from the trace) does not fit into permits(); notified request that fits completes when polled; plus a machine-checked refutation for the pre-repair model (finding D1a). Correspondence on results, ordered wakes and permits(); the extracted monitor is also evaluated on the crate's own traces to exhibit a failing history.",
+        level_text="Theorem over all histories of the repaired code, both fairness modes: at every quiescent point, if requests are pending and none holds an unconsumed wake-up then the longest-waiting one (ordering rule of the property, recomputed from the trace) does not fit into permits(); notified request that fits completes when polled; plus a machine-checked refutation for the pre-repair model (finding D1a). Correspondence on results, ordered wakes and permits(); the extracted monitor is also evaluated on the crate's own traces to exhibit a failing history; runs at the usize::MAX boundary included.",
         level_note="'Eventually completes' is the invariant + one-step progress, not a temporal theorem. " + SCHED_NOTE,
     ),
     "C07": dict(
@@ -227,7 +229,7 @@ PROPS = {
         theorems={"Properties/C08.v": ["C08_conservation", "C08_in_flight", "C08_drops_only_where_allowed", "C08_drops_placed"]},
         runs=MPMC_RUNS, keys=["r", "v", "p"], monitor=dict(id=8, runs=["mpmc-c0", "mpmc-c1", "mpmc-c2", "mpmc-shared-c1"]),
         assumptions=[SCHED_NOTE, "values uniquely tagged"],
-        level_text="Theorem over all histories (any number of send/receive futures, any capacity incl. 0, close, cancel, try-ops, shared handle drops): the conservation monitor over the observable trace holds - every observed movement (delivered / handed back / destroyed) concerns a value still in flight and removes it, nothing is left after teardown; the in-flight set of the trace equals buffer + values inside live send futures; values are destroyed only with their send future, by the last receiver's clear(), or at teardown. Correspondence on results, per-step value movements (drop-counting tagged payloads, double drops detected) and closed/len probes, for ArrayBuf, FixedHeapBuf, GrowingHeapBuf, borrowed and shared.",
+        level_text="Theorem over all histories (any number of send/receive futures, any capacity incl. 0, close, cancel, try-ops, shared handle drops): the conservation monitor over the observable trace holds - every observed movement (delivered / handed back / destroyed) concerns a value still in flight and removes it, nothing is left after teardown; the in-flight set of the trace equals buffer + values inside live send futures; values are destroyed only with their send future, by the last receiver's clear(), or at teardown (state-level theorem and trace monitor drops_placed_ok with theorem C08_drops_placed). Correspondence on results, per-step value movements (drop-counting tagged payloads, double drops detected) and closed/len probes, for ArrayBuf, FixedHeapBuf, GrowingHeapBuf, borrowed and shared.",
         level_note="Tie to the code by differential execution on exhaustive k=2x2 (caps 0..2) spaces + random histories. " + SCHED_NOTE,
     ),
     "C09": dict(
@@ -253,7 +255,7 @@ PROPS = {
                   "Properties/C13.v": ["C11c_close_status", "C11c_closed_monotone", "C11c_implicit_close"]},
         runs=MPMC_RUNS + ONESHOT_RUNS + STATE_RUNS, keys=["r", "w", "p", "v"], assumptions=[SCHED_NOTE],
         monitor=dict(id=11, runs=["bcast-shared", "oneshot-shared", "state-shared", "mpmc-shared-c1", "mpmc-shared-c0", "mpmc-c0", "mpmc-c1"]),
-        level_text="Theorems for mpmc, oneshot, oneshot-broadcast and state-broadcast models: close is permanent/idempotent (NewlyClosed once), sends after close fail returning the caller's value, every queued future is woken and unlinked, receivers drain the buffer in order then None/Closed; implicit close: for every interleaving of the atomic sections of clone/drop of any number of handles, without explicit close the channel is closed iff a side has no handle left (never while both sides have one); last mpmc receiver clears the buffer; plus a machine-checked refutation for the pre-repair broadcast receiver (finding D3). Correspondence on close status, results, wakes, value movements over all clone/drop orders of up to 3 handles.",
+        level_text="Theorems for mpmc, oneshot, oneshot-broadcast and state-broadcast models: close is permanent/idempotent (NewlyClosed once), sends after close fail returning the caller's value, every queued future is woken and unlinked, receivers drain the buffer in order then None/Closed; implicit close: for every interleaving of the atomic sections of clone/drop of any number of handles, without explicit close the channel is closed iff a side has no handle left (never while both sides have one); last mpmc receiver clears the buffer; trace monitors with theorems for the handle lifecycle (C11_handles_trace) and for 'a closing call leaves nobody pending and unwoken' (C11_close_wakes_trace); plus a machine-checked refutation for the pre-repair broadcast receiver (finding D3). Correspondence on close status, results, wakes, value movements over all clone/drop orders of up to 3 handles.",
         level_note="Handle-count atomics' memory orderings are assumed; interleavings are of whole atomic sections. " + SCHED_NOTE,
     ),
     "C12": dict(
@@ -267,7 +269,7 @@ PROPS = {
         level="proof", extra=["atomic_audit", "threads"], coq_files=["Properties/C13.v"],
         theorems={"Properties/C13.v": ["C13_protocol", "C13_ids_move_only_with_send", "C13_send", "C13_ids_bounded", "C13_wakes_all", "C13_queue_exact", "C13_after_close"]},
         runs=STATE_RUNS, keys=["r", "w", "p", "v"], monitor=dict(id=13, runs=["state-local", "state-shared"]), assumptions=[SCHED_NOTE],
-        level_text="Theorem over all histories: the state-broadcast monitor holds on the trace (ids strictly increase, sends rejected only when closed or at u64::MAX and return their value; receive/try_receive complete only with the latest state and its id and only if newer than requested; None only after close for up-to-date receivers; waiting receivers woken by the next send or close). The u64::MAX arm is reached in the correspondence through a cfg-guarded hook presetting the id.",
+        level_text="Theorem over all histories: the state-broadcast monitor holds on the trace (ids strictly increase, sends rejected only when closed or at u64::MAX and return their value; receive/try_receive complete only with the latest state and its id and only if newer than requested; None only after close for up-to-date receivers; waiting receivers woken by the next send or close; the published id moves only with a successful send - monitor ids_stable, theorem C13_ids_move_only_with_send). The u64::MAX arm is reached in the correspondence through a cfg-guarded hook presetting the id.",
         level_note=SCHED_NOTE,
     ),
     "C15": dict(
@@ -281,7 +283,7 @@ PROPS = {
         level="proof", coq_files=["Properties/C19.v"],
         theorems={"Properties/C19.v": ["C19_refines_fifo", "C19_accessors", "C19_drop_exact", "C19_no_ub", "C19_array_indices"]},
         runs=RB_RUNS, keys=["r", "v", "p"], monitor=dict(id=19, runs=[r for r in RB_RUNS if r.endswith("-0")]),
-        level_text="Theorems for ArrayBuf (indices + MaybeUninit slots), FixedHeapBuf and GrowingHeapBuf models, every capacity incl. 0: refinement to a FIFO list, accessors exact, drop returns exactly the stored elements once, no assertion failure / uninitialised read / overwrite under the can_push/is_empty discipline, index invariant with wrap-around. Correspondence: exhaustive push/pop/drop sequences for capacities 0..4 with drop-counting elements, plus a malformed stream whose expected observable is a panic.",
+        level_text="Theorems for ArrayBuf (indices + MaybeUninit slots), FixedHeapBuf and GrowingHeapBuf models, every capacity incl. 0: refinement to a FIFO list, accessors exact, drop returns exactly the stored elements once, no assertion failure / uninitialised read / overwrite under the can_push/is_empty discipline, index invariant with wrap-around. Correspondence: exhaustive push/pop/drop sequences for capacities 0..4 with drop-counting elements - sized and ZERO-SIZED element types - plus a malformed stream whose expected observable is a panic.",
         level_note="VecDeque is trusted (modelled as a list). Miri is not used (different technique family).",
     ),
     "C20": dict(
@@ -299,7 +301,7 @@ PROPS = {
         trusted_extra=["tools/rs2coq_types.py (translator: struct/enum fields, unsafe impl bounds -> coq/Gen/TypesGen.v, regenerated on every run)",
                        "coq/Model/AutoTraits.v leaf rules for core/alloc/lock_api types, validated on every run against rustc on ~1500 instantiations with witness types (tools/c16.py probe crate)",
                        "coq/Model/AutoTraitsSpec.v `required` / `promised` tables: they ARE the definition of 'sound' and 'promised'"],
-        level_text="Translator route: the struct / unsafe-impl facts are regenerated from /repo/src on every run; theorems (complete case analysis over all Send/Sync/Unpin bit assignments of the type parameters, closed by vm_compute): every future/stream is !Unpin for every instantiation; whenever a public type is Send/Sync the bounds required by the hand-written soundness table hold; every explicit unsafe impl is covered by the table; promised instances hold. The auto-trait rules + translator are validated against rustc itself (probe crate, autoref specialisation) on every run; a falsifying assignment is instantiated with witness types and confirmed with rustc as the failing input.",
+        level_text="Translator route: the struct / unsafe-impl facts are regenerated from /repo/src on every run; theorems (complete case analysis over all Send/Sync/Unpin bit assignments of the type parameters, closed by vm_compute): every future/stream is !Unpin for every instantiation; whenever a public type is Send/Sync the bounds required by the hand-written soundness table hold; every explicit unsafe impl is covered by the table; promised instances hold; every `impl Timer` demands MutexType: Sync (TimerFuture is unconditionally Send); `trait Clock: Sync` (the service shares &dyn Clock between threads); futures that erase their channel behind dyn ...Access<T> are Send only if the channel behind the reference is Sync - proved for all links outside the recorded open finding D5 (mpmc futures cannot name the buffer type), whose instances are reported as KNOWN-FINDING. The documented alias flavours (Local* = never Send/Sync, others = parking_lot instantiation, Send+Sync) are pinned with rustc. The auto-trait rules + translator are validated against rustc itself (probe crate, autoref specialisation) on every run; a falsifying assignment is instantiated with witness types and confirmed with rustc as the failing input.",
         level_note="The auto-trait model is a simplification of rustc's solver (no lifetimes, no coinduction); soundness is relative to the requirement table.",
         assumptions=["Pin guarantees that a !Unpin future is not moved after its first poll (language guarantee)"],
         technique="translator (Rust source -> Coq data) + Coq proof by exhaustive case analysis + rustc probe validation",
